@@ -175,11 +175,43 @@ func (c06) Gen(r *sim.Rand, tier string, run uint64) *sim.Scenario {
 		}
 		ops = append(ops, sim.Op{K: "finalize"})
 	}
+	far := r.Chance(1, 40)
+	if far {
+		// a branch from one end of a (nearly) full bank to the other: the true distance is
+		// beyond +-65000 and must be reported, however the 16-bit program counter wraps
+		l := newLabel()
+		pad := r.Range(65300, 65500)
+		var big []sim.Op
+		for pad > 0 {
+			k := 16000
+			if k > pad {
+				k = pad
+			}
+			big = append(big, sim.Op{K: "data", B: r.Bytes(k)})
+			pad -= k
+		}
+		if r.Chance(1, 2) {
+			ops = append(append([]sim.Op{{K: "label", N: []int64{l}}}, big...), append([]sim.Op{s8ref(l)}, ops...)...)
+		} else {
+			ops = append(append([]sim.Op{s8ref(l)}, big...), append([]sim.Op{{K: "label", N: []int64{l}}}, ops...)...)
+		}
+		ops = append(ops, sim.Op{K: "finalize"})
+	}
 	total := 0
 	for _, op := range ops {
 		total += opSize(op)
 	}
-	if set, base := genBase(r, total+8); set {
+	if far {
+		// keep the whole program inside one bank
+		for total > 0xFFF0 && len(ops) > 0 {
+			total -= opSize(ops[len(ops)-1])
+			ops = ops[:len(ops)-1]
+		}
+		ops = append(ops, sim.Op{K: "finalize"})
+		if r.Chance(1, 2) {
+			ops = append([]sim.Op{{K: "setbase", N: []int64{int64(r.Intn(256)) << 16}}}, ops...)
+		}
+	} else if set, base := genBase(r, total+8); set {
 		ops = append([]sim.Op{{K: "setbase", N: []int64{int64(base)}}}, ops...)
 	}
 	sc.Cfg["cap"] = int64(total + 16)
@@ -187,6 +219,10 @@ func (c06) Gen(r *sim.Rand, tier string, run uint64) *sim.Scenario {
 		sc.Cfg["cap"] = int64(r.Intn(total + 1)) // tight: some emits are refused mid-history
 	}
 	sc.Cfg["gentext"] = int64(r.Intn(2))
+	if far {
+		sc.Cfg["cap"] = int64(total + 16)
+		sc.Cfg["gentext"] = 0
+	}
 	sc.Cfg["dual"] = 0
 	if r.Chance(1, 6) {
 		sc.Cfg["dual"] = 1
@@ -240,11 +276,11 @@ func c06run(sc *sim.Scenario, env *sim.Env, st *sim.Stats, observe bool) c06resu
 	if capacity < 0 {
 		capacity = 0
 	}
-	if capacity > 1<<16 {
-		capacity = 1 << 16
+	if capacity > 1<<16+64 {
+		capacity = 1<<16 + 64
 	}
 	gentext := sc.C("gentext") != 0
-	target := make([]byte, capacity)
+	target, guard := mkTarget(capacity, sc.Seed&2 == 2)
 	e := asm.NewEmitter(target, gentext)
 	m := newAsmModel(true, capacity, gentext)
 	var emitted []byte // image as emitted, never patched
@@ -363,6 +399,9 @@ func c06run(sc *sim.Scenario, env *sim.Env, st *sim.Stats, observe bool) c06resu
 			res.v = v
 			return res
 		}
+		if !guardIntact(guard) {
+			return viol(i, "wrote_beyond_target", "op %s: bytes behind the target slice were written", op)
+		}
 		if panicked != (out.Refused != "") {
 			return viol(i, "refusal_mismatch", "op %s: model refused=%q, library panicked=%v (%s)", op, out.Refused, panicked, msg)
 		}
@@ -402,6 +441,10 @@ func c06run(sc *sim.Scenario, env *sim.Env, st *sim.Stats, observe bool) c06resu
 		for _, r := range m.Refs {
 			if la, ok := m.Labels[r.Label]; ok && r.S8 {
 				d := int64(la) - int64(r.Operand+1)
+				if d > 60000 || d < -60000 {
+					st.Probe("dist_across_bank")
+					st.MarkNontrivial()
+				}
 				switch d {
 				case -129, -128, -127, 126, 127, 128, 0, -2:
 					st.Probe(fmt.Sprintf("dist_eq_%d", d))
